@@ -460,6 +460,11 @@ pub fn execute(h: &History, want: &str, rep: &mut Report, mut trace: Option<&mut
                     let vp = v_prev as f64;
                     let u = bits as f64 / TWO24;
                     let slack = 4.0 * ULP1;
+                    if before == State::Attack && after != State::Attack && after != State::Decay && v != 1.0 {
+                        // whatever state the tick went to (an illegal one is C02's business): the attack is over and
+                        // it has to have risen "up to exactly 1.0"
+                        fail!("C01", "attack-end-level", format!("the attack ended (tick moved the envelope to {}) at {} without the output ever being exactly 1.0", sname(after), fmt_f32(v)), i, Some(t));
+                    }
                     match after {
                         State::Attack => {
                             if vd < vp - slack {
